@@ -64,14 +64,59 @@ ClauseSeq(e) ==
      ELSE IF ~judged /\ ~okc THEN [c |-> "SpecState(catch-all/repeated key)", alarm |-> FALSE]
      ELSE [c |-> "ok", alarm |-> FALSE]
 
+\* the caller adds values to cells of the table it read: touches = sequence of <<column, key, value>>
+RECURSIVE Touched(_, _)
+Touched(tab, ts) ==
+  IF ts = <<>> THEN tab
+  ELSE LET t == Head(ts) IN Touched([tab EXCEPT ![t[1]][t[2]] = DenAddValue(@, t[3])], Tail(ts))
+
 ClauseCsv(e) ==
-  LET want == ProjTab(ReadRows(<<>>, e.rows), SeqRange(e.probes))
-      got  == ObsTab(e.table)
+  LET read  == ReadRows(<<>>, e.rows)
+      want  == ProjTab(read, SeqRange(e.probes))
+      got   == ObsTab(e.table)
+      want2 == ProjTab(Touched(read, e.touch), SeqRange(e.probes))
+      got2  == ObsTab(e.table2)
   IN IF e.exc # "none"                 THEN [c |-> "CsvReadable", alarm |-> TRUE]
      ELSE IF got # want                THEN [c |-> "CsvCells", alarm |-> TRUE]
+     ELSE IF got2 # want2              THEN [c |-> "CsvCellsAfterAdd", alarm |-> TRUE]
      ELSE [c |-> "ok", alarm |-> FALSE]
 
+(* ---- objects with identity (ValueSets.tla, ConstraintTable.tla Touch) ----                              *)
+(* e.nreg variables name value-set objects; e.tab is a table whose cells ARE some of these objects (a     *)
+(* column = sequence of <<key, variable>>; the table holds references, so additions to a cell variable  *)
+(* are additions to the cell).  Steps: <<"add_value", x, v, 0>>, <<"add_range", x, lo, hi>> (in place),     *)
+(* <<"union", x, l, r>>, <<"any", x, 0, 0>>, <<"new", x, 0, 0>>, <<"avf", x, key, chosen>> (x is rebound to *)
+(* what the library returned: a new object each time).  e.mem[i][x] = <<wildcard?, members among probes>> *)
+(* of the object variable x names after step i, for ALL variables: value semantics say that a step        *)
+(* changes the contents of the variable it is applied to and of no other.                                 *)
+MapOf(pairs) == [k \in {p[1] : p \in SeqRange(pairs)} |-> (CHOOSE p \in SeqRange(pairs) : p[1] = k)[2]]
+TabDen(tab, d) == [i \in 1..Len(tab) |->
+                     [k \in {c[1] : c \in SeqRange(tab[i])} |-> d[(CHOOSE c \in SeqRange(tab[i]) : c[1] = k)[2]]]]
+ObjStep(d, tab, st) ==
+  LET x == st[2] IN
+  CASE st[1] = "add_value" -> [d EXCEPT ![x] = DenAddValue(@, st[3])]
+    [] st[1] = "add_range" -> [d EXCEPT ![x] = DenAddRange(@, st[3], st[4])]
+    [] st[1] = "union"     -> [d EXCEPT ![x] = DenUnion(d[st[3]], d[st[4]])]
+    [] st[1] = "any"       -> [d EXCEPT ![x] = AnyDen]
+    [] st[1] = "new"       -> [d EXCEPT ![x] = EmptyDen]
+    [] st[1] = "avf"       -> [d EXCEPT ![x] = AllowedValuesFor(TabDen(tab, d), st[3], MapOf(st[4]))]
+\* "ok" or the operation after which some variable's recorded contents differ from its own listed contents
+RECURSIVE ObjRun(_, _, _)
+ObjRun(e, d, i) ==
+  IF i > Len(e.steps) THEN "ok"
+  ELSE LET d2 == ObjStep(d, e.tab, e.steps[i])
+           P  == SeqRange(e.probes)
+           ok == /\ Len(e.mem[i]) = e.nreg
+                 /\ \A x \in 1..e.nreg : /\ e.mem[i][x][1] = d2[x].any
+                                         /\ SeqRange(e.mem[i][x][2]) = DenIn(d2[x], P)
+       IN IF ok THEN ObjRun(e, d2, i + 1) ELSE e.steps[i][1]
+ClauseObj(e) ==
+  LET r == IF Len(e.mem) # Len(e.steps) THEN "length" ELSE ObjRun(e, [x \in 1..e.nreg |-> EmptyDen], 1)
+  IN IF r = "ok" THEN [c |-> "ok", alarm |-> FALSE]
+     ELSE [c |-> "ContainsExactlyUnion(every object, after " \o r \o ")", alarm |-> TRUE]
+
 Clause(e) == CASE e.ev = "vs"  -> ClauseVs(e)
+               [] e.ev = "obj" -> ClauseObj(e)
                [] e.ev = "seq" -> ClauseSeq(e)
                [] e.ev = "csv" -> ClauseCsv(e)
                [] OTHER -> [c |-> "UnknownEvent", alarm |-> TRUE]
